@@ -2,6 +2,7 @@ import CCVerif.Lemmas.EvalGround
 import CCVerif.Lemmas.EvalSetOps
 import CCVerif.Lemmas.EvalExamples
 import CCVerif.Lemmas.EvalExamples6
+import CCVerif.Lemmas.EvalExamples7
 /-!
 # C01 — evaluation returns the set-theoretic value
 
@@ -627,5 +628,63 @@ theorem normalize_correct_on_binderCollision :
     ∃ n, normalizeTree envX.funcs 20 binderCollision = some n ∧
       denote (senvOf envX) 20 .nil n = denote (senvOf envX) 20 .nil binderCollision := by
   refine ⟨_, rfl, ?_⟩; decide
+
+/-! ## stage 7: calls of term functions / predicates `F[args]`
+
+`Normalizer::Function` inlines the body of the definition (arguments put in place of the parameters, bound variables
+of the body renamed to `__var<n>`); the reference semantics binds the parameters to thunks (call by name).
+`Beta fs K [] e es` (`Lemmas/EvalCalls.lean`) is the syntactic relation "`e` β-reduces to the call-free `es`":
+calls may occur anywhere among literals, arithmetic, comparisons, connectives, every ground set construct, globals,
+`∀ ∃ D{x∈S | P}` over one plain variable, in arguments and in bodies of called definitions (nesting of calls is
+arbitrary; a derivation is finite, so the called definitions are not recursive - the checker has no recursive
+definitions either: a definition may only use constituents analysed before it); a bound variable of the reduct must be
+new on the reduct side (`avoid`).  `Beta.sound` proves the reduction sound for `⟦·⟧` with `K` more units of fuel.
+`es` must lie in the typed fragment of stage 6 with normal form `n`, and `n` must be what the normaliser returns for
+`e` at SOME fuel (a closed computation for a concrete expression; `normalizeTree_stable` extends it to every fuel).
+NOT proved: that the normaliser always returns such an `n` (the `__var<n>` name generation is not characterised by a
+theorem: no `normalize_correct_partial7`); calls under `R{}` / `I{}` / enumerated declarations / tuple patterns
+(`Beta` has no rule for these binders). -/
+
+/-- stage 7: the expression β-reduces (calls unfolded) to an expression of stage 6 whose normal form is the
+normaliser's answer for the expression itself -/
+def Stage7 (env : Env) (e : Ast) : Prop :=
+  ∃ G τ es n K f0, GlobalsOK env G ∧ FragR env G 6 [] [] es n τ ∧ Beta env.funcs K [] e es ∧
+    normalizeTree env.funcs f0 e = some n
+
+/-- **eval_refines_denote_partial7**: the refinement for closed expressions with calls of term functions and
+predicates, in the form `eval_refines_denote_calls_statement` (the reference semantics is granted `K` more units of
+fuel, `K` = the offset of the β-reduction: one per call plus one per parameter look-up along the deepest path): a value
+returned by `Interpreter::Evaluate` - which runs on the tree with every call inlined - is the value the reference
+semantics assigns to the original tree, calls evaluated by binding parameters to thunks. -/
+theorem eval_refines_denote_partial7 : eval_refines_denote_calls_statement Stage7 := by
+  intro env e ⟨G, τ, es, n, K, f0, hG, hf, hbeta, hn⟩
+  refine ⟨K, fun fuel f' hf' => ?_⟩
+  rcases evaluate_calls hG hf hbeta hn fuel with hg | ho | ⟨eid, pos, he, _⟩
+  · cases τ with
+    | ty ty =>
+      obtain ⟨v, hr, _, _, hd⟩ := hg
+      constructor
+      · intro v' hv; rw [hr] at hv; injection hv with hv; rw [← hv]; exact hd f' hf'
+      · intro b hb; rw [hr] at hb; cases hb
+    | logic =>
+      obtain ⟨b, hr, hd⟩ := hg
+      constructor
+      · intro v hv; rw [hr] at hv; cases hv
+      · intro b' hb; rw [hr] at hb; injection hb with hb; rw [← hb]; exact hd f' hf'
+  · constructor <;> intro x hx <;> rw [ho] at hx <;> cases hx
+  · constructor <;> intro x hx <;> rw [he] at hx <;> cases hx
+
+/-- **normalize_stable_partial7**: the answer of the normaliser does not depend on the model's fuel (for every
+expression, calls included): once it returns `n` at some fuel, at every fuel it returns `n` or runs out of fuel -/
+theorem normalize_stable_partial7 (fs : Funcs) (e n : Ast) (f0 : Nat) (h : normalizeTree fs f0 e = some n) (fuel : Nat) :
+    normalizeTree fs fuel e = none ∨ normalizeTree fs fuel e = some n := normalizeTree_stable h fuel
+
+/-! non-vacuity of stage 7 (`Lemmas/EvalExamples7.lean`): `F1 :== [s∈ℬ(X1)] D{y∈X1 | y∈s}`, caller
+`D{x∈X1 | F1[{x}]={x}}` over `X1 = {1,2}`; β-reduct and normal form `D{x∈X1 | D{__var1∈X1 | __var1∈{x}}={x}}`,
+offset `K = 2` (the call, the look-up of `s`) -/
+example : Stage7 Examples7.env7 Examples7.caller :=
+  ⟨_, _, _, _, 2, 10, Examples7.globalsOK_7, Examples7.callerN_frag, Examples7.caller_beta, Examples7.caller_normalizes⟩
+example : (evaluate 20 Examples7.env7 Examples7.caller).1 = .ok (.s [.e 1, .e 2]) ∧
+    denote (senvOf Examples7.env7) 22 .nil Examples7.caller = some (.val (.s [.e 1, .e 2])) := by decide
 
 end CCVerif.Eval
